@@ -15,7 +15,7 @@ use scnr::ScannerModeSwitcher;
 
 pub struct C01;
 
-fn tiny_exhaustive_cases() -> Vec<Case> {
+pub fn tiny_exhaustive_cases() -> Vec<Case> {
     // all pattern pairs over a tiny grammar (size <= 3) x all inputs over {a,b,c} up to length 5
     use crate::rx::LitForm::Verbatim as V;
     let atoms = vec![
